@@ -105,9 +105,27 @@ def theorem_names(prop_file):
     return re.findall(r"^\s*(?:Theorem|Corollary)\s+([A-Za-z0-9_']+)", src, re.M)
 
 
-def forbidden_scan():
+def closure(pid):
+    """files of the development that Props/<pid>.v depends on (transitively, by Require lines)"""
+    seen, todo = set(), ["theories/Props/%s.v" % pid]
+    while todo:
+        f = todo.pop()
+        if f in seen or not os.path.exists(os.path.join(COQ, f)):
+            continue
+        seen.add(f)
+        src = open(os.path.join(COQ, f)).read()
+        for m in re.finditer(r"From\s+LV\s+Require\s+(?:Import\s+|Export\s+)?((?:[A-Za-z_]\w*(?:\.[A-Za-z_]\w*)*\s*)+)\.", src):
+            for mod in m.group(1).split():
+                todo.append("theories/" + mod.replace(".", "/") + ".v")
+        for m in re.finditer(r"(?<!LV )Require\s+(?:Import\s+|Export\s+)?((?:LV\.[A-Za-z0-9_.]*\w\s*)+)\.", src):
+            for mod in m.group(1).split():
+                todo.append("theories/" + mod[3:].replace(".", "/") + ".v")
+    return sorted(seen)
+
+
+def forbidden_scan(pid):
     bad = []
-    for f in coq_files():
+    for f in closure(pid):
         src = open(os.path.join(COQ, f)).read()
         nocomment = re.sub(r"\(\*.*?\*\)", lambda m: " " * len(m.group(0)), src, flags=re.S)
         for m in FORBIDDEN.finditer(nocomment):
@@ -177,7 +195,8 @@ def coq_build(pid, translators=()):
                 if status == "disallowed":
                     res["ok"] = False
             res["obligations"].append({"name": n, "status": status, "axioms": axioms, "print_assumptions": text[:400]})
-        bad = forbidden_scan()
+        bad = forbidden_scan(pid)
+        res["closure"] = closure(pid)
         if bad:
             res["ok"] = False
             res["log"] += "\n[forbidden constructs]\n" + "\n".join(bad)
@@ -330,11 +349,16 @@ def read_jsonl(path):
 # ------------------------------------------------------------------------------------------------
 
 def load_known(pid):
-    p = os.path.join(VERIF, "known_findings.json")
-    if not os.path.exists(p):
-        return []
-    data = json.load(open(p))
-    return [e for e in data.get("findings", []) if e.get("property") == pid and e.get("status") == "known"]
+    """known_findings.json (orchestrator) + known_findings.d/*.json (per cluster); read-only at run time"""
+    entries = []
+    paths = [os.path.join(VERIF, "known_findings.json")]
+    d = os.path.join(VERIF, "known_findings.d")
+    if os.path.isdir(d):
+        paths += [os.path.join(d, f) for f in sorted(os.listdir(d)) if f.endswith(".json")]
+    for p in paths:
+        if os.path.exists(p):
+            entries += json.load(open(p)).get("findings", [])
+    return [e for e in entries if e.get("property") == pid and e.get("status") == "known"]
 
 
 def match_known(known, viol):
